@@ -37,6 +37,33 @@ CLAIMS['C18'] = dict(
         'entry per real evaluation in real order (missing/extra evaluation = DESYNC); a counting and stateful model is run on real samplers.',
    design='3/C18', note=TB)
 
+CLAIMS['C09'] = dict(
+   technique='Lean 4 proof (decision logic + loop invariant by induction + index arithmetic) + correspondence + direct search; one recorded finding',
+   text='C09_due_iff/C09_schedule (sweep iff ntemps>1 and iteration % s = 0), C09_whole_state_permuted (level t afterwards holds the complete St '
+        'value of level swap_index[t]; acceptance record and earlier rows untouched), C09_reset_exactly_swapped, '
+        'C09_colder_moves_up_at_most_one (loop invariant over every ladder length and decision path), C09_rows_stored_in_order (row index = '
+        'number of earlier sweeps since the clear, for every swap interval and clear placement), C09_rows_view_partial / C09_rows_view_bounds and '
+        'C09_pinned_counterexample (the views return len//s rows: exact only when the last clear fell on a multiple of s; recorded finding F6). '
+        'Adjacent-exchange refinement is C03. Tied by the plumbing correspondence on PT configurations; searched with a before/after capture of '
+        'every real swap_temperatures().',
+   design='3/C09', note=TB + '; known finding listed in known_findings.txt (key rows-view-short-after-offmultiple-clear)')
+CLAIMS['C06'] = dict(
+   technique='Lean 4 proof (simulation relation preserved by every operation, induction over arbitrary operation sequences) + correspondence + direct search; one recorded finding',
+   text='C06_partition_and_clear_transparent: for EVERY sequence of iterations, clears and run-boundary scratch growth, the state reached is '
+        'PSfx-related to the state reached by the bare iterations (same iteration, current position/stats/blob, proposed point, proposal '
+        'counters and adaptive events, ladder; retained records are a suffix). Corollaries C06_counters_and_current, '
+        'C06_retained_history_is_suffix, C06_run_split. Tied by the plumbing correspondence; real samplers with all compositions of small n and '
+        'all clear subsets are compared bit for bit with one uninterrupted run.',
+   design='3/C06', note=TB + '; known finding (same root cause as C09/F6) listed in known_findings.txt')
+CLAIMS['C17'] = dict(
+   technique='Lean 4 proof (invariant by induction over operation sequences; order lemma over Q with Mathlib) + correspondence + direct search',
+   text='C17_sorted_in_range / C17_out_of_range_rejected (setter: permutation, sorted coldest to hottest, in [0,1], rejects otherwise), '
+        'C17_coherent (levels.map beta = ladder array in every reachable state: steps, sweeps, annealer calls, clears, growth, loads), '
+        'C17_step_uses_level_beta, C17_endpoints_fixed, C17_order_preserved (annealer recursion with positive exp(S) keeps the ladder strictly '
+        'decreasing). Tied by the PT plumbing correspondence with dynamic ladders (ladder array and every level beta dumped; recorded acceptance '
+        'ratios recomputed with the level beta) and driver ops setbetas/anneal against the real setter/annealer.',
+   design='3/C17', note=TB)
+
 NOT_YET = {}
 
 def main():
